@@ -213,9 +213,11 @@ def get_unescaped_str(string: str, qm: str) -> str:
     for i in string:
         if i == qm:
             out.append(f"\\{qm}")
-        elif ord(i) > 255:
+        elif ord(i) > 255 and i.isprintable():
             out.append(i)
         else:
+            # ascii and non-printable characters (including lone surrogates,
+            # which can not be encoded when the result is written out)
             out.append(ascii(i)[1:-1])
     return "".join(out)
 
